@@ -266,7 +266,10 @@ func setVariants() []setVariant {
 				}
 				s.AddInt64(ii...)
 			},
-			func(s *collection.Set) []any { k := s.KeysInt64(); return toAny(len(k), func(i int) any { return k[i] }) }},
+			func(s *collection.Set) []any {
+				k := s.KeysInt64()
+				return toAny(len(k), func(i int) any { return k[i] })
+			}},
 		{"uint", collection.NewSet, func(i int) any { return uint(i) },
 			func(s *collection.Set, xs []any) {
 				ii := make([]uint, len(xs))
@@ -275,7 +278,10 @@ func setVariants() []setVariant {
 				}
 				s.AddUint(ii...)
 			},
-			func(s *collection.Set) []any { k := s.KeysUint(); return toAny(len(k), func(i int) any { return k[i] }) }},
+			func(s *collection.Set) []any {
+				k := s.KeysUint()
+				return toAny(len(k), func(i int) any { return k[i] })
+			}},
 		{"uint64", collection.NewSet, func(i int) any { return uint64(i) },
 			func(s *collection.Set, xs []any) {
 				ii := make([]uint64, len(xs))
@@ -284,7 +290,10 @@ func setVariants() []setVariant {
 				}
 				s.AddUint64(ii...)
 			},
-			func(s *collection.Set) []any { k := s.KeysUint64(); return toAny(len(k), func(i int) any { return k[i] }) }},
+			func(s *collection.Set) []any {
+				k := s.KeysUint64()
+				return toAny(len(k), func(i int) any { return k[i] })
+			}},
 		{"string", collection.NewSet, func(i int) any { return fmt.Sprintf("e%d", i) },
 			func(s *collection.Set, xs []any) {
 				ii := make([]string, len(xs))
